@@ -414,6 +414,16 @@ mutant("c02-sorted-reverse-by-reversing", "C02", "builtins.py",
        "            keyed_items.sort(key=lambda ki: ki[0])\n            return [item for _, item in (reversed(keyed_items) if reverse else keyed_items)]",
        rule="R02.8")
 
+mutant("c01-tee-child-lifo", "C01", "itertools.py",
+       "            yield buffer.popleft()", "            yield buffer.pop()", rule="R01.14")
+mutant("c01-tee-first-peer-skipped", "C01", "itertools.py",
+       "                        for peer_buffer in peers:\n                            peer_buffer.append(item)\n",
+       "                        for peer_buffer in peers[1:]:\n                            peer_buffer.append(item)\n                        buffer.append(item)\n",
+       rule="R01.14")
+mutant("c16-stale-group-keeps-reading", "C16", "itertools.py",
+       "        if state.current_group is not self:\n            raise StopAsyncIteration\n        await state.maybe_step()",
+       "        await state.maybe_step()", rule="R16.8")
+
 # --------------------------------------------------------------------------- C13
 mutant("c13-handlers-reordered", "C13", "contextlib.py",
        "            except StopAsyncIteration as exc:\n                return exc is not exc_tb\n            except RuntimeError as exc:\n                if exc is exc_val:\n                    return False\n                # Handle promotion of unhandled Stop[Async]Iteration to RuntimeError\n                if isinstance(exc_val, (StopIteration, StopAsyncIteration)):\n                    if exc.__cause__ is exc_val:\n                        return False\n                raise\n            except exc_type as exc:\n                if exc is not exc_val:\n                    raise\n                return False\n",
